@@ -102,11 +102,52 @@ def solve_contract(A, rhs, trans='N', count=True, label="x"):
             if _arrays_equal_valid(M @ shaped, rhs):
                 st["log"].append(("candidate", trans))
                 return wrap(_np.array(shaped, dtype=object, copy=True))
+    n = M.shape[0]
+    if M.shape[0] == M.shape[1] and n <= CRAMER_MAX_N:
+        # the solution of a non-singular system is unique: write it down (adjugate / determinant).  With
+        # the fraction scalars this keeps every later obligation a rational identity (no solver search).
+        c.stubs.add("linear solve without matching pre-image: explicit adjugate/determinant solution (n <= %d)" % CRAMER_MAX_N)
+        st["log"].append(("cramer", trans))
+        return _cramer(M, rhs)
     cplx = is_complex_content(M) or is_complex_content(rhs)
     x = fresh_like(rhs.shape, cplx, label)
     add_constraint_eq(M @ x, rhs)
     st["log"].append(("fresh", trans))
     return x
+
+
+CRAMER_MAX_N = 3
+
+
+def _det(M):
+    n = M.shape[0]
+    if n == 1:
+        return M[0, 0]
+    if n == 2:
+        return M[0, 0] * M[1, 1] - M[0, 1] * M[1, 0]
+    tot = 0
+    for j in range(n):
+        if not isinstance(M[0, j], (R, C)) and M[0, j] == 0:
+            continue
+        minor = _np.delete(_np.delete(M, 0, axis=0), j, axis=1)
+        tot = tot + ((-1) ** j) * M[0, j] * _det(minor)
+    return tot
+
+
+def _cramer(M, rhs):
+    M = _np.asarray(M)
+    n = M.shape[0]
+    d = _det(M)
+    adj = _np.empty((n, n), dtype=object)
+    for i in range(n):
+        for j in range(n):
+            minor = _np.delete(_np.delete(M, j, axis=0), i, axis=1)
+            adj[i, j] = ((-1) ** (i + j)) * (_det(minor) if n > 1 else 1)
+    num = adj @ _np.asarray(rhs)
+    out = _np.empty(num.shape, dtype=object)
+    for i in _np.ndindex(*num.shape):
+        out[i] = num[i] / d
+    return out.view(SymArray)
 
 
 def _reshapes(cand, shape):
